@@ -33,7 +33,11 @@ def strip_comments(src):
 TAGS = {"DT_DIR": "DType.dir", "DT_UNKNOWN": "DType.unknown", "DT_LNK": "DType.lnk", "DT_REG": "DType.reg"}
 
 
-def generate(repo, out_path=OUT):
+LAST_LEVEL = [""]
+
+
+def analyse(repo):
+    """-> (tag1, tag2, statfn) of the current text; raises Refuse"""
     src = strip_comments((Path(repo) / "src/Directory.cpp").read_text(errors="replace"))
     m = re.search(r"bool\s+Directory::unlink\s*\(\s*const\s+String&\s*dir\s*,\s*bool\s+recursive\s*\)\s*\{", src)
     if not m:
@@ -106,6 +110,20 @@ def generate(repo, out_path=OUT):
         raise Refuse(f"Directory::unlink: type test through {statfn}()")
     if "nftw" in posix or "ftw(" in posix:
         raise Refuse("Directory::unlink: file tree walk call")
+    return tag1, tag2, statfn
+
+
+def generate(repo, out_path=OUT):
+    """writes Generated/PathUnlink.lean: the decision of the CURRENT text when the translator understands its shape
+    (`decision_isCurrent := true`; the proofs of PropsUnlinkTie.lean then hold or break with it), else the decision the
+    proofs were written for with `decision_isCurrent := false` (LAST_LEVEL says why; the current text is then tied by the
+    correspondence run only)"""
+    try:
+        tag1, tag2, statfn = analyse(repo)
+        current, why = True, ""
+    except Refuse as e:
+        tag1, tag2, statfn, current, why = "DT_DIR", "DT_UNKNOWN", "lstat", False, str(e)
+    LAST_LEVEL[0] = "proved" if current else f"correspondence run only (translator refuses the current text: {why})"
     text = f"""/- generated by tools/gen_path_unlink.py from src/Directory.cpp (POSIX branch of Directory::unlink) - do not edit -/
 namespace Nstd.Generated.PathUnlink
 
@@ -133,12 +151,18 @@ def action (isDir : Bool) (name : List Nat) : Action :=
   else if isDir then Action.recurse
   else Action.unlinkFile
 
+/-- is the decision above the one of the current src/Directory.cpp (false: the translator did not understand the current
+    text; the proved decision stands here and the current text is tied by the correspondence run only) -/
+def decision_isCurrent : Bool := {"true" if current else "false"}
+
 end Nstd.Generated.PathUnlink
 """
     out_path = Path(out_path)
     out_path.parent.mkdir(parents=True, exist_ok=True)
     if not out_path.exists() or out_path.read_text() != text:
         out_path.write_text(text)
+    if not current:
+        return f"Directory::unlink entry decision: REFUSED ({why}) [the proved decision stands in]"
     return f"Directory::unlink entry decision: isDir = d_type == {tag1}; {tag2} -> {statfn}; skip ./..; recurse / File::unlink"
 
 
